@@ -27,6 +27,23 @@ def run(tier, seed, replay):
             specs.append(sp)
             hists.append([{"op": "get", "name": "v"}, {"op": "get", "name": "v"}, {"op": "getctx", "ctx": 1, "name": "v"}, {"op": "getctx", "ctx": 1, "name": "v"},
                           {"op": "getctx", "ctx": 2, "name": "v"}, {"op": "get", "name": "user"}, {"op": "get", "name": "v"}])
+    # aliases named like packages the generated code imports for itself (function tokens register fmt / os / strconv ...), and aliases of aliases:
+    # the declared constructor / value is the one of the package the alias denotes
+    for alias, target in (("fmt", "gv.test/fix/alpha"), ("errors", "example.com/lib"), ("os", "example.com/other"), ("strconv", "gv.test/fix/alpha"), ("context", "example.com/lib"), ("reflect", "example.com/other")):
+        for with_fn in (False, True):
+            cfg = {"meta": {"imports": {alias: target, "std": alias}},
+                   "parameters": dict({"plain": 1}, **({"viafn": "%env(\"GV_SET\")%", "viaint": "%envInt(\"GV_INT\")%", "vt": "%todo()%"} if with_fn else {})),
+                   "services": {"a": {"constructor": alias + ".NewA", "arguments": ["%plain%"] + (["%viafn%", "%env(\"GV_SET\")%"] if with_fn else [])},
+                                "b": {"value": alias + ".Value"}, "c": {"constructor": "NewB", "arguments": ["!value " + alias + ".Value", "@a"], "type": "*" + alias + ".T", "getter": "GetC"},
+                                "d": {"value": "&" + alias + ".MyStruct{}", "tags": ["t"]},
+                                # a name the shadowed standard package exports too (errors.New): nothing fails to compile if the alias is bypassed
+                                "e": {"constructor": alias + ".New", "arguments": ["x"]}},
+                   "decorators": [{"tag": "t", "decorator": alias + ".Decorate", "arguments": ["%plain%"]}]}
+            sp = common.mk_spec(len(specs), [cfg], keep_out=True)
+            sp["cfg"] = cfg
+            sp["what"] = ["alias-like-own-import:%s%s" % (alias, "+fn" if with_fn else "")]
+            specs.append(sp)
+            hists.append([{"op": "get", "name": n_} for n_ in cfg["services"]] + [{"op": "param", "name": p_} for p_ in cfg["parameters"]])
     if replay:
         rp = json.load(open(replay))["replay"]
         specs = [dict(rp, id="0", dump=True, build_info="bi", keep_out=True)]
@@ -45,6 +62,104 @@ def run(tier, seed, replay):
         rtcommon.run_histories(out, tooldir, env, ispecs, ihists, "C02ident constructor named like a local of the generated constructor", "C02")
     nontrivial = set()
     dist = {"accepted": len(acc), "rejected": len(specs) - len(acc), "objects": 0, "errors": 0}
+    # ---- independent of the runtime model: what the documentation says each argument form injects, decoded here from the configuration
+    # and compared position by position with what the constructor / setters / methods of the fixture received
+    from decimal import Decimal
+    import math
+
+    def strip(x):
+        if isinstance(x, dict):
+            return {k_: strip(v) for k_, v in x.items() if k_ != "serial"}
+        if isinstance(x, list):
+            return [strip(v) for v in x]
+        return x
+
+    def expect(a, cfg, got_of):
+        """expected probe description of one argument, or None when this oracle does not decide the form"""
+        if isinstance(a, bool):
+            return {"k": "bool", "v": a}
+        if a is None:
+            return {"k": "nil"}
+        if isinstance(a, int):
+            if -2 ** 63 <= a < 2 ** 63:
+                return {"k": "num", "t": "int", "v": str(a)}
+            return {"k": "num", "t": "uint64", "v": str(a)} if 0 <= a < 2 ** 64 else None
+        if isinstance(a, float):
+            if not math.isfinite(a):
+                return None
+            txt = format(Decimal(repr(a)), "f")
+            if "." in txt:
+                txt = txt.rstrip("0").rstrip(".")
+            return {"k": "num", "t": "float64", "v": "-0" if a == 0 and math.copysign(1, a) < 0 else txt}
+        if not isinstance(a, str):
+            return None
+        if a == "$gontainer":
+            return {"k": "container"}
+        if a.startswith("@"):
+            dep = cfg["services"].get(a[1:]) or {}
+            g = got_of.get(a[1:])
+            if g is None or g.get("k") != "obj" or ("value" in dep and (dep.get("fields") or dep.get("calls"))):
+                return None
+            return strip(g)
+        if a.startswith("!"):
+            return None
+        if "%" not in a.replace("%%", ""):
+            try:
+                a.encode("utf-8")
+            except UnicodeEncodeError:
+                return None
+            return {"k": "str", "v": a.replace("%%", "%")}
+        return None
+
+    arg_stat = {"services": 0, "positions_checked": 0, "positions_skipped": 0}
+    for k in acc:
+        cfg = specs[k].get("cfg")
+        if cfg is None or "rt_raw" not in obs[k]:
+            continue
+        raw = obs[k]["rt_raw"]
+        got_of = {}
+        for j, o in enumerate(hists[k]):
+            if o["op"] == "get" and o["name"] not in got_of:
+                got_of[o["name"]] = raw[j]
+        decorated_tags = {d["tag"] for d in cfg.get("decorators") or []}
+        for n_, sv in cfg["services"].items():
+            g = got_of.get(n_)
+            if not g or g.get("k") != "obj" or "constructor" not in sv or sv.get("todo"):
+                continue
+            if any((t if isinstance(t, str) else t.get("name")) in decorated_tags for t in sv.get("tags") or []):
+                continue
+            if g["origin"].rsplit(".", 1)[-1] != sv["constructor"].rsplit(".", 1)[-1]:
+                out.violation("created-by-another-method", "service %s is declared with constructor %s, the object was made by %s" % (n_, sv["constructor"], g["origin"]), dict(common.slim(specs[k], obs[k]), history=hists[k]))
+                continue
+            want = [("arg", a) for a in sv.get("arguments") or []]
+            for c in sv.get("calls") or []:
+                want.append(("mark", c[0]))
+                want += [("arg", a) for a in (c[1] if len(c) > 1 else [])]
+            gargs = g["args"]
+            arg_stat["services"] += 1
+            if len(gargs) != len(want):
+                out.violation("argument-count", "service %s: %d values reached its constructor and methods, %d are declared" % (n_, len(gargs), len(want)), dict(common.slim(specs[k], obs[k]), history=hists[k]))
+                continue
+            for pos, ((kind, a), ga) in enumerate(zip(want, gargs)):
+                e = {"k": "str", "v": "<%s>" % a} if kind == "mark" else expect(a, cfg, got_of)
+                if e is None or "hex" in ga:
+                    arg_stat["positions_skipped"] += 1
+                    continue
+                arg_stat["positions_checked"] += 1
+                if strip(ga) != e:
+                    out.violation("argument-injected:%s" % ("call-order" if kind == "mark" else type(a).__name__ if not isinstance(a, str) else ("service" if a.startswith("@") else "container" if a == "$gontainer" else "string")),
+                                  "service %s, position %d (%r): the documentation says %s is injected, the fixture received %s" % (n_, pos, a, json.dumps(e)[:200], json.dumps(strip(ga))[:200]),
+                                  dict(common.slim(specs[k], obs[k]), history=hists[k]))
+                    break
+            for fn_, fv in (sv.get("fields") or {}).items():
+                e = expect(fv, cfg, got_of)
+                gf = (g.get("fields") or {}).get(fn_)
+                if e is None or gf is None and e == {"k": "nil"} or (gf or {}).get("hex"):
+                    continue
+                arg_stat["positions_checked"] += 1
+                if gf is None or strip(gf) != e:
+                    out.violation("field-assigned", "service %s, field %s (%r): expected %s, the object holds %s" % (n_, fn_, fv, json.dumps(e)[:200], json.dumps(strip(gf))[:200]), dict(common.slim(specs[k], obs[k]), history=hists[k]))
+    dist["argument_oracle"] = arg_stat
     for k in acc:
         for l in rl[k]:
             if l.startswith("O("):
